@@ -27,3 +27,22 @@ func (e *DOHEndpoint) VerifSetRoundTripper(rt http.RoundTripper) { e.transport =
 func (e *DOHEndpoint) VerifWrapRoundTripper(inner http.RoundTripper) {
 	e.transport = transport{RoundTripper: inner, hostname: e.Hostname, path: e.Path, addr: e.Hostname + ":443"}
 }
+
+// VerifUseTransportAddrs builds the endpoint's real HTTP/2 transport dialling addrs IN PARALLEL (the package's own
+// parallelDialer, as with several bootstrap addresses) and trusting roots.
+func (e *DOHEndpoint) VerifUseTransportAddrs(addrs []string, roots *x509.CertPool) {
+	rt := newTransportH2(e, addrs)
+	if t, ok := rt.(*http.Transport); ok {
+		t.TLSClientConfig.RootCAs = roots
+	}
+	e.transport = transport{RoundTripper: rt, hostname: e.Hostname, path: e.Path, addr: addrs[0]}
+}
+
+// VerifCloseIdle drops the endpoint's idle upstream connections: the next requests have to dial again.
+func (e *DOHEndpoint) VerifCloseIdle() {
+	if t, ok := e.transport.(transport); ok {
+		if ht, ok := t.RoundTripper.(*http.Transport); ok {
+			ht.CloseIdleConnections()
+		}
+	}
+}
